@@ -11,8 +11,8 @@ const SPEC: Spec = Spec {
         "result equality across std / no_std follows from uniqueness of the floor root: both configurations are checked against the same oracle",
         "refint multiplication is trusted; the root oracle is cross-checked against a Python bisection root on a transcript slice",
     ],
-    bounds_quick: "R1 x < 2^14 and |x - 2^64| <= 256 x 15 degrees; R2 r^n, r^n+-1 for 11 bases x 12 degrees while r^n < 2^6000, each with every degree of the list + 1000 + u32::MAX; R3 2^k, 2^k+-1 for every k in 60..=2300 x degrees {2,3,4,5,7,11}; R4 negatives / panics",
-    bounds_thorough: "R1 x < 2^17 and |x - 2^64| <= 4096; R2 while r^n < 2^12000; R3 every k in 60..=5000; R4",
+    bounds_quick: "R1 x < 2^14 and |x - 2^64| <= 256 x 15 degrees; R2 r^n, r^n+-1 for 11 bases x 12 degrees while r^n < 2^6000, each with every degree of the list + 1000 + u32::MAX; R3 2^k, 2^k+-1 for every k in 60..=2300 x degrees {2,3,4,5,7,11}; R4 negatives / panics; R6 b^n and b^n-1 for b in {3,2047,65537} x n in {1100,1500,3001} (Newton descents of the order of n steps)",
+    bounds_thorough: "R1 x < 2^17 and |x - 2^64| <= 4096; R2 while r^n < 2^12000; R3 every k in 60..=5000; R4; R6 6 bases x 8 degrees up to 6000",
     hang_secs: 120,
     probes: Some(probes),
     max_workers: 16,
@@ -204,6 +204,34 @@ fn body(ctx: &mut Ctx) {
             }
             if l == 17 {
                 ctx.sample(|| "dense LCG values of 17 digits x degrees {2,3,4,5,7,16,64,100}".to_string());
+            }
+        }
+    }
+    // R6: large degrees with multi-bit roots: the Newton iteration needs on the order of n steps there
+    if ctx.space("R6") {
+        let degs: Vec<u32> = match tier {
+            Tier::Quick => vec![1100, 1500, 3001],
+            Tier::Thorough => vec![1000, 1025, 1100, 1500, 2000, 3001, 4097, 6000],
+        };
+        let bases: Vec<u64> = match tier {
+            Tier::Quick => vec![3, 2047, 65537],
+            Tier::Thorough => vec![3, 255, 2047, 2048, 65537, 1 << 20],
+        };
+        let mut o = 0u64;
+        for &n in &degs {
+            for &b in &bases {
+                let take = ctx.mine(o);
+                o += 1;
+                if !take {
+                    continue;
+                }
+                let p = Nat::from_u64(b).pow(n as u64);
+                for x in [p.sub(&Nat::one()).unwrap(), p.clone()] {
+                    root_case(ctx, &x, n);
+                }
+                if n == 1500 {
+                    ctx.sample(|| format!("x = {}^{} and -1 ({} bits) x degree {}", b, n, p.bits(), n));
+                }
             }
         }
     }
